@@ -630,9 +630,12 @@ object_t* load_object (const char *mudlib_filename, const char *pre_text) {
  */
 static char *make_new_name (const char *str) {
   static int i = 1;
-  char *p = DXALLOC (strlen (str) + 10, TAG_OBJ_NAME, "make_new_name");
+  /* '#', the digits of an int (the sign too, should the counter ever wrap) and the
+   * terminator: "+ 10" was one short from the 100,000,000th clone on */
+  size_t size = strlen (str) + 1 + 11 + 1;
+  char *p = DXALLOC (size, TAG_OBJ_NAME, "make_new_name");
 
-  (void) sprintf (p, "%s#%d", str, i);
+  (void) snprintf (p, size, "%s#%d", str, i);
   i++;
   return p;
 }
